@@ -372,8 +372,10 @@ def op_signature(body):
             a = seg.index('\x00')
             c = seg.find(',', a)
             seg = seg[:a] + (seg[a:c] if c >= 0 else '')
-        if '=>' in seg:                                    # match arm: the pattern is not arithmetic
-            seg = seg.split('=>', 1)[1]
+        if '=>' in seg:                                    # match arm: the pattern is not arithmetic, its guard is
+            pat, rest = seg.split('=>', 1)
+            g = re.search(r'\bif\b', pat)
+            seg = (pat[g.end():] + ' ; ' if g else '') + rest
         if seg.strip().startswith('|'):                    # continuation line of a multi-line pattern
             seg = ''
         seg = re.sub(r'(^|[(,=]|\bmove)\s*\|[^|]*\|', r'\1 ', seg)      # closure parameters
